@@ -44,6 +44,7 @@ type TProof struct {
 type TQuote struct {
 	Q         storage.MintQuote
 	Payments  int // settled on Lightning (1) or internally by a melt (1); the truth, from the LN model / melt results
+	LNCounted bool
 	Successes int // successful MintTokens calls
 	Issued    uint64
 	LastOuts  []world.Out // outputs of the last mint attempt (for "same outputs again")
@@ -108,6 +109,10 @@ type W struct {
 	InternalSettled uint64
 	// FeeBurned is the sum of input fees of accepted swaps/melts (value destroyed)
 	dbErrArmed string
+	// LastSwapOuts are the outputs of the most recent swap request (for verbatim replays)
+	LastSwapOuts []world.Out
+	// Unc, when set, makes Invariants skip entities touched by an interrupted operation (C07 durability pass)
+	Unc *Uncertain
 }
 
 func New(dir string, cfg Config) (*W, error) {
@@ -391,6 +396,7 @@ func meltExpect(known string) (string, int) {
 
 // Invariants compares the store with the model (C01, C03, C05, C15, C16, C02). Side-effect free.
 func (w *W) Invariants() {
+	w.SyncPayments()
 	t, err := w.ReadTables()
 	if err != nil {
 		w.viol("HARNESS", "read-tables", "%v", err)
@@ -398,6 +404,9 @@ func (w *W) Invariants() {
 	}
 	// proofs
 	for i, p := range w.Proofs {
+		if w.Unc != nil && w.Unc.Proofs[i] {
+			continue
+		}
 		real := Unspent
 		if _, ok := t.Spent[p.Y]; ok {
 			real = Spent
@@ -422,6 +431,9 @@ func (w *W) Invariants() {
 	}
 	// melt quotes
 	for i, m := range w.Melts {
+		if w.Unc != nil && w.Unc.Melts[i] {
+			continue
+		}
 		st, ok := t.MeltQ[m.Q.Id]
 		if !ok {
 			w.viol("C15", "melt-quote-missing", "mq%d missing from store", i)
@@ -447,6 +459,9 @@ func (w *W) Invariants() {
 	// signatures: store has exactly the signatures handed out (C15) and sums match (C16)
 	issued := map[string]*big.Int{}
 	for _, o := range w.Outs {
+		if w.Unc != nil && w.Unc.Outs[o.O.Msg.B_] {
+			continue
+		}
 		sig, ok := t.Sigs[o.O.Msg.B_]
 		if o.Signed {
 			if !ok {
@@ -473,7 +488,9 @@ func (w *W) Invariants() {
 	}
 	gotI, err1 := w.M.M.IssuedEcash()
 	gotR, err2 := w.M.M.RedeemedEcash()
-	if err1 != nil || err2 != nil {
+	if w.Unc != nil {
+		// totals depend on the interrupted operation: skipped in the durability pass
+	} else if err1 != nil || err2 != nil {
 		w.viol("C16", "balance-query-error", "IssuedEcash/RedeemedEcash error: %v %v", err1, err2)
 	} else {
 		cmpSums := func(name string, got map[string]uint64, exp map[string]*big.Int) {
